@@ -55,8 +55,13 @@ def atoms_of_rules(rules):
 
 def impl_models(text, H, **kw):
     """run the implementation; returns ('ok', {h: models}) or ('err', class, message)"""
+    dedup = kw.pop("dedup", False)
     try:
-        return ("ok", tl.run_telingo(text, H, **kw))
+        res = tl.run_telingo(text, H, **kw)
+        if dedup:
+            # as sets: an answer set that clasp's incremental enumeration lists twice (see compare_with_spec) counts once
+            res = {h: sorted(set(ms)) for h, ms in res.items()}
+        return ("ok", res)
     except BaseException as e:  # noqa
         if isinstance(e, KeyboardInterrupt):
             raise
@@ -64,6 +69,9 @@ def impl_models(text, H, **kw):
 
 def spec_tsm_lines(rules, atoms, H):
     return [tl.sexp(("tsm", h, tuple(atoms), tuple(rules))) for h in range(H + 1)]
+
+def has_theory_atoms(rules):
+    return any(head[0] == "tel" or any(l[0] in ("tel", "del") for l in body) for _, _, head, body in rules)
 
 def compare_with_spec(cases, H, style_seed=None, extra_text=""):
     """
@@ -87,6 +95,12 @@ def compare_with_spec(cases, H, style_seed=None, extra_text=""):
         for h in range(H + 1):
             exp = tl.parse_spec_models(outs[i * (H + 1) + h])
             got = r[1].get(h, [])
+            if got != exp and has_theory_atoms(rules) and sorted(set(got)) == exp:
+                # the same answer set reported twice: clasp's incremental enumeration does that when an external atom that
+                # was false in an earlier solve call is set free (telingo's placeholders for `>` beyond the horizon) — reproduced
+                # with backend statements alone (DESIGN §11.7); the properties checked through this oracle speak about which
+                # answer sets exist, not how often one is listed
+                continue
             if got != exp:
                 fails.append({"kind": "models", "text": text, "rules": rules, "h": h, "index": idx,
                               "expected": [list(m) for m in exp][:8], "got": [list(m) for m in got][:8],
